@@ -9,9 +9,11 @@ space and comments anywhere).
 import ZeepVerif.Lemmas.ReadField
 import ZeepVerif.Lemmas.ReadFile
 import ZeepVerif.Lemmas.ReadDecide
+import ZeepVerif.Lemmas.ReadSpec
 
 namespace ZeepVerif.Props.C02Read
-open ZeepVerif ZeepVerif.Model ZeepVerif.Lemmas.ReadField ZeepVerif.Lemmas.ReadFile ZeepVerif.Lemmas.ReadDecide
+open ZeepVerif ZeepVerif.Model ZeepVerif.Spec ZeepVerif.Lemmas.ReadField ZeepVerif.Lemmas.ReadFile ZeepVerif.Lemmas.ReadDecide
+open ZeepVerif.Lemmas.ReadSpec ZeepVerif.Lemmas.Flatten
 
 /-- a member declaration becomes exactly one field: its XML name, the snake_case field name, the Rust type of its
     `type` attribute, the occurrence flags of `occurrence`, the current target namespace — and reading it does
@@ -52,6 +54,28 @@ theorem c02_file_read (xf : XFile) (h : plainFileB xf = true) :
 theorem c02_declarations_idempotent (d : Doc) (nss : List (Option String × String)) :
     (d.collectNamespaces nss).collectNamespaces nss = d.collectNamespaces nss :=
   collectNamespaces_again _ nss (collectNamespaces_absorbs d nss)
+
+/-- **against the reference, at the level of the grammar**: take any complex type definition of the grammar
+    without base and without element references (any nesting of sequences and choices, any occurrence values up
+    to 2^64-1, any attributes), render it as the tree the generator sees (`ComplexDef.toX`; compared with the
+    real parse of the printed text on every run); the struct description the reader returns for it has — member
+    by member, in order — the XML name, the wrapper and the attribute flag of `Spec.Ref`: the flattened elements
+    first, then the attributes; none dropped, none added -/
+theorem c02_type_read_matches_reference (s : SchemaSet) (f : SchemaFile) (d : Doc) (cd : ComplexDef) (name : String)
+    (nss : List (Option String × String)) (anc : List XNode)
+    (hnr : ∀ o ps, cd.content = some (o, ps) → NoRefs ps ∧ PartsOk ps ∧ OccOk o) :
+    (complexOf d (cd.toX f name nss) anc name).fields.map fieldObs =
+      (Ref.ownElements s f cd ++ cd.attrs.map (Ref.attrField s)).map refObs :=
+  complex_read_matches_ref s f d cd name nss anc hnr
+
+/-- … and that tree meets the hypotheses of `c02_type_read` -/
+theorem c02_rendered_type_is_plain (f : SchemaFile) (cd : ComplexDef) (name : String)
+    (nss : List (Option String × String)) (anc : List XNode) (o : Occurs) (ps : List Particle)
+    (hc : cd.content = some (o, ps)) (hn : NoRefs ps) :
+    ∀ st ∈ memberSites (XNode.elem "sequence" (occAttrs o) [] none (particlesToX f ps)) (cd.toX f name nss :: anc), PlainDecl st.1 := by
+  intro st hst
+  simp only [memberSites] at hst
+  exact (sites_particles f ps hn _).1 st hst
 
 /-! non-vacuity: a file with two complex types (nested sequence and choice, an attribute) meets the hypothesis -/
 def demoFile : XFile :=
